@@ -269,7 +269,9 @@ _BOUND = {
               -1.5, float('inf')],
     'Double': [0.0, -0.0, 1.7976931348623157e308, 5e-324, -1.5,
                float('-inf')],
-    'String': ['', 'x' * 128, 'é世\U0001f600', 'a', '{"text":"x"}'],
+    'String': ['', 'x' * 128, 'é世\U0001f600', 'a', '{"text":"x"}',
+               '\ufeff{"text":"x"}', '\ufeff', ' x ', '\x00', 'a\r\n',
+               '\ufffd\u2028'],
     'UUID': ['00000000-0000-0000-0000-000000000000',
              'ffffffff-ffff-ffff-ffff-ffffffffffff',
              '12345678-1234-5678-1234-567812345678'],
